@@ -113,6 +113,18 @@ class Val:
         self.ra = ra
 
 
+class AwaitObj:
+    """An awaitable that is neither a coroutine nor a Future: just an object with __await__."""
+
+    __slots__ = ("make",)
+
+    def __init__(self, make):
+        self.make = make
+
+    def __await__(self):
+        return self.make().__await__()
+
+
 class Suspend:
     __slots__ = ("tag",)
 
@@ -185,6 +197,9 @@ DEFAULT_CFG = {
     "handler": None,             # None | "policy" | "call" | "both"
     "handler_menu": ["SLEEP", "DEFER", "ABORT"],
     "handler_free": False,
+    "handler_durs": [0],         # ticks the sleep handler itself takes (menu, deviation)
+    "awaitable": "coro",         # "coro": async stubs are coroutine functions; "object": they
+                                 # return a plain object with __await__ (not a coroutine)
     "before_sleep": None,
     "bs_async": False,
     "sleeper": "call",           # None => library default sleeper (patched time.sleep)
@@ -292,14 +307,15 @@ class World:
             return
         self._nesting = True
         self._nested_done = True
-        saved = (self.trace, self.op_n, self.ncalls, self._forced)
+        saved = (self.trace, self.op_n, self.ncalls, self._forced, self._last_op_exc)
         self.trace = []
         self._forced = list(nest["script"])
+        self._last_op_exc = None
         try:
             self.call(nest["entry"])
         finally:
             self.nested_traces.append(self.trace)
-            self.trace, self.op_n, self.ncalls, self._forced = saved
+            self.trace, self.op_n, self.ncalls, self._forced, self._last_op_exc = saved
             self._nesting = False
 
     def fault(self, site):
@@ -459,6 +475,9 @@ class World:
         def handler(ctx, delay):
             world.fault("handler")
             d = menu[world.ch.choose("handler", len(menu), free)] if len(menu) > 1 else menu[0]
+            hd = world.cfg["handler_durs"]
+            if len(hd) > 1:
+                E.advance(hd[world.ch.choose("hdur", len(hd))] * TAU)
             world.trace.append(("handler", which, getattr(ctx, "attempt", None), ticks(delay), d))
             if d == "BAD":
                 return "sleep-ish"
@@ -473,6 +492,8 @@ class World:
                 if world.cfg["suspend"]:
                     await Suspend("bsleep")
                 world.fault("before_sleep")
+            if self.cfg["awaitable"] == "object":
+                return lambda ctx, delay: AwaitObj(lambda: before_sleep_async(ctx, delay))
             return before_sleep_async
 
         def before_sleep(ctx, delay):
@@ -504,6 +525,8 @@ class World:
                 if world.cfg["suspend"]:
                     await Suspend("sleep")
                 world._do_sleep(which, s)
+            if self.cfg["awaitable"] == "object":
+                return lambda s: AwaitObj(lambda: sleeper_async(s))
             return sleeper_async
 
         def sleeper(s):
